@@ -48,6 +48,7 @@ type acct struct {
 }
 
 type block struct {
+	real     bool // executed as one block by the unmodified VMExecutor.Execute
 	cfg      blockCfg
 	accounts []acct
 	txs      []*txn
@@ -101,6 +102,8 @@ func (f *frame) toks(out []string) []string {
 			out = append(out, string(a.kind), strconv.Itoa(a.k))
 		case 'V':
 			out = append(out, "V")
+		case 'Q':
+			out = append(out, "Q", a.addr)
 		}
 	}
 	out = append(out, "E")
@@ -137,13 +140,19 @@ const (
 	cStake   = 4000000
 )
 
+// mayBurnAll: the frame may use up (nearly) all the gas it is GIVEN, however much that is: it ends in a
+// non-REVERT failure, or it contains a CREATE/CREATE2 child that does (a create child is handed 63/64 of
+// whatever its parent has, not a budget), or a CREATE2 that may collide.
 func (f *frame) mayBurnAll() bool {
 	switch f.end {
 	case "invalid", "oog", "rethuge":
 		return true
 	}
 	for _, a := range f.acts {
-		if a.kind == 'V' || a.kind == 'D' && false {
+		if a.kind == 'V' || a.kind == 'Q' {
+			return true // UNSTAKEALL / STAKENUM fail the frame when there is no such miner
+		}
+		if a.kind == 'N' && (a.two || a.body.mayBurnAll()) {
 			return true
 		}
 	}
@@ -170,7 +179,7 @@ func (f *frame) need() uint64 {
 			n += cSuicide
 		case 'L':
 			n += cLog
-		case 'K', 'U', 'V':
+		case 'K', 'U', 'V', 'Q':
 			n += cStake
 		case 'C', 'A':
 			g := a.body.need()
@@ -220,12 +229,13 @@ type gen struct {
 	blk       *block
 	nextID    int
 	withAuth  bool
+	withStake bool
 	authNonce int // predicted nonce of authority b30
 }
 
 func newGen(r *hx.Rng, st *stats) *gen { return &gen{r: r, st: st} }
 
-var hosts = []string{"b20", "b21", "b22", "b23"}
+var hosts = []string{"b20", "b21", "b22", "b23", "b23"}
 var valuePool = []int{0, 0, 0, 1, 1, 2, 7, 49, 50, 51, 999, 1000, 1001, 5000}
 
 func (g *gen) block() *block {
@@ -248,9 +258,26 @@ func (g *gen) block() *block {
 		{"e", 30, r.Pick(0, 5)},
 	}
 	b.accounts = append(b.accounts, precAccounts()...)
+	if r.Chance(1, 3) {
+		// this block goes through the unmodified VMExecutor.Execute: one origin (the loop sorts by source),
+		// Proposal007 on, enough balance for gasLimit*gasPrice
+		b.real = true
+		b.cfg.p007, b.cfg.cbn = true, true
+		b.accounts[0].balance = realOriginBalance
+	}
 	g.blk = b
 	g.withAuth = r.Chance(1, 2)
 	g.authNonce = 0
+	if !g.withAuth && r.Chance(1, 2) {
+		// b23 is a contract registered as a validator miner account (stake 400 RPG); 2 RPG and a bit are left on it
+		g.withStake = true
+		for i := range b.accounts {
+			if b.accounts[i].n == 23 {
+				b.accounts[i].kind, b.accounts[i].balance = "m", 2000000000000000007
+			}
+		}
+	}
+	g.nextID = 1
 	ntx := 1 + r.Intn(4)
 	for i := 0; i < ntx; i++ {
 		b.txs = append(b.txs, g.tx(i))
@@ -280,8 +307,13 @@ func (g *gen) id() int {
 
 func (g *gen) tx(i int) *txn {
 	r := g.r
+	startID := g.nextID
 	for try := 0; ; try++ {
-		g.nextID = 1
+		g.nextID = startID // ids are unique within a block (one dispatcher per host serves all its transactions)
+		saltsBefore := map[int]bool{}
+		for k := range g.blk.salts {
+			saltsBefore[k] = true
+		}
 		t := &txn{hash: 1 + i, origin: "b10", blk: g.blk}
 		if r.Chance(1, 12) {
 			t.hash = 1 // same hash as the first transaction of the block (what GetLogs then returns is part of the tie)
@@ -299,6 +331,9 @@ func (g *gen) tx(i int) *txn {
 			t.body = g.frame(1, maxDepth, "dyn", false, true)
 		} else {
 			t.target = hosts[r.Intn(len(hosts))]
+			if g.withStake && r.Chance(1, 2) {
+				t.target = "b23" // the miner account
+			}
 			if r.Chance(1, 25) {
 				t.target = []string{"b11", "b40", "prec"}[r.Intn(3)] // EOA, non-existent account, precompile
 			}
@@ -319,11 +354,22 @@ func (g *gen) tx(i int) *txn {
 				t.body = &frame{end: "stop"}
 			}
 		}
+		if g.blk.real {
+			t.origin, t.hash = "b10", 1+i // distinct hashes (the loop panics on equal ones), one source
+			if !t.create && precN(t.target) != 0 && t.body.end == "oog" {
+				t.body.end = "stop" // a transaction cannot be given less gas than its intrinsic gas
+			}
+		}
 		if t.body.need() <= gasCap {
 			g.st.txs++
 			return t
 		}
 		g.st.regen++
+		for k := range g.blk.salts { // forget CREATE2 init codes of the discarded attempt
+			if !saltsBefore[k] {
+				delete(g.blk.salts, k)
+			}
+		}
 	}
 }
 
@@ -343,8 +389,27 @@ func (g *gen) frame(depth, maxDepth int, self string, static, inCreate bool) *fr
 	nacts := r.Pick(0, 1, 1, 2, 2, 3, 4)
 	pure := static && r.Chance(1, 2) // under STATICCALL: half of the frames try no direct write
 	authed := false
+	if static && depth < maxDepth && r.Chance(1, 3) {
+		// below a STATICCALL: a non-static child frame that starts with a write -- the sticky read-only flag
+		// must still stop it (this is what a "readOnly follows the innermost frame" regression breaks)
+		ck := []string{"call", "delegatecall", "callcode"}[r.Intn(3)]
+		host := hosts[r.Intn(len(hosts))]
+		cself := host
+		if ck != "call" {
+			cself = self
+		}
+		c := &act{kind: 'C', id: g.id(), ck: ck, addr: host}
+		c.body = g.frame(depth+1, maxDepth, cself, true, false)
+		w := []*act{{kind: 'S', k: r.Intn(4), v: 1 + r.Intn(3)}, {kind: 'L', k: r.Intn(5), v: r.Intn(200)}, {kind: 'T', k: r.Intn(3), v: 1 + r.Intn(8)}}[r.Intn(3)]
+		c.body.acts = append([]*act{w}, c.body.acts...)
+		g.st.kinds["C"+ck]++
+		f.acts = append(f.acts, c)
+	}
 	for i := 0; i < nacts; i++ {
 		c := r.Intn(100)
+		if g.withStake && r.Chance(1, 4) {
+			c = 50 // a STAKE-family opcode
+		}
 		var a *act
 		switch {
 		case c < 22:
@@ -369,6 +434,23 @@ func (g *gen) frame(depth, maxDepth int, self string, static, inCreate bool) *fr
 			a = &act{kind: 'D', addr: []string{"b10", "b11", "b21", "b41", self}[r.Intn(5)]}
 			if a.addr == "dyn" {
 				a.addr = "b41"
+			}
+		case c < 60 && g.withStake:
+			if pure && r.Chance(1, 2) {
+				continue
+			}
+			switch r.Intn(6) {
+			case 0, 1:
+				a = &act{kind: 'K', k: r.Pick(0, 1, 1, 2, 3)}
+			case 2, 3:
+				a = &act{kind: 'U', k: r.Pick(0, 1, 100, 400, 401, 402)}
+			case 4:
+				a = &act{kind: 'V'}
+			default:
+				a = &act{kind: 'Q', addr: []string{"b23", "b23", "b20", self}[r.Intn(4)]}
+				if a.addr == "dyn" {
+					a.addr = "b21"
+				}
 			}
 		case c < 57 && g.withAuth:
 			if depth >= maxDepth {
